@@ -28,6 +28,15 @@ SWAP = [
     ("func", "inner", [("Signal", "x0"), ("Signal", "a")], [], B("-", V("x0"), B("*", V("a"), I(2)))),
     ("func", "outer", [("Signal", "a"), ("Signal", "x0")], [], B("+", ("call", "inner", [V("x0"), V("a")]), I(1))),
 ]
+MIXED = {
+    "cmp": B(">", V("x"), V("y")),
+    "sel-y": ("cond", B(">", V("x"), I(1)), V("y")),
+    "sel-x": ("cond", B(">", V("y"), I(1)), V("x")),
+    "cmpsel": ("cond", B(">=", V("x"), V("y")), V("y")),
+    "arith": B("+", B("*", V("x"), I(2)), V("y")),
+    "and": B("&&", B(">=", V("x"), V("y")), B(">", V("y"), I(0))),
+    "cmp-arith": B("+", B("*", ("paren", B(">", V("x"), V("y"))), I(2)), V("y")),
+}
 G = ("func", "g", [("Signal", "q")], [("decl", "Signal", "w1", B("*", V("q"), V("q")))], B("-", V("w1"), I(1)))
 ARGS = {
     "typed,int": (V("a"), I(3)), "typed,intvar": (V("a"), V("kk")), "untyped,int": (V("u"), I(2)),
@@ -98,7 +107,7 @@ class C15(core.Check):
     timeout = 300
     rule = ("function bodies (pure, locals, local shadowing an outer name, conditional, .type of a parameter, local "
             "place, nested call, Entity parameter, entity-returning) x argument kinds (typed/untyped/item signal, "
-            "expression, int literal, int variable, int->Signal and Signal->int coercion) x call contexts (once, twice, "
+            "expression, int literal, int variable, int->Signal and Signal->int coercion, an int literal to one Signal parameter next to a run-time signal for comparison / ':' / && bodies) x call contexts (once, twice, "
             "inside an expression, inside a loop); each program is compared with the twin in which our own inliner "
             "replaced every call: named outputs, user-entity multiset and entity conditions for every input valuation; "
             "memory-carrying bodies are compared by lock-step BFS (C15m cases); non-trivial = outputs vary with inputs")
@@ -145,6 +154,15 @@ class C15(core.Check):
         ):
             out.append({"f": tag, "args": "same-value-twice", "ctx": "once", "stmts": gen.prog_with_inputs(["a", "c"], pre + body),
                         "inputs": ["a", "c"], "outputs": ["r1"]})
+        # an integer literal bound to ONE Signal parameter while the other is a run-time signal: the constant reaches
+        # comparison operands and ':' values inside the body
+        for fn, ret in MIXED.items():
+            for an, args in (("lit,sig", [I(2), V("a")]), ("sig,lit", [V("a"), I(2)]), ("lit,expr", [I(-1), B("*", V("a"), V("c"))])):
+                f = ("func", "g", [("Signal", "x"), ("Signal", "y")], [], ret)
+                used = ["a", "c"] if an == "lit,expr" else ["a"]
+                out.append({"f": "mixed-" + fn, "args": an, "ctx": "once",
+                            "stmts": gen.prog_with_inputs(used, [f, ("decl", "Signal", "r1", ("call", "g", args))]),
+                            "inputs": used, "outputs": ["r1"]})
         for name, body in ENTITY_PROGS.items():
             out.append({"f": name, "args": "-", "ctx": "entity", "stmts": gen.prog_with_inputs(["a"], body),
                         "inputs": ["a"], "outputs": []})
